@@ -27,7 +27,7 @@ def seeded(ctx, n, big):
             nat = rng.randint(1, 5)
             scripts = [{"status": 502 if k < nat - 1 else 200, "writes": [3], "read": rng.choice(["none", "half", "all"]),
                         "mut": rng.choice(["none", "hdr", "url", "hdrslice", "urlfields"])} for k in range(nat)]
-            steps.append({"method": rng.choice(["POST", "PUT", "GET"]), "framing": rng.choice(["declared", "chunked"]), "size": size,
+            steps.append({"method": rng.choice(["POST", "PUT", "GET"]), "framing": rng.choice(["declared", "chunked", "unknown"]), "size": size,
                           "hdrs": rng.sample(["X-A", "X-B2", "Content-Type", "X-C", "Accept"], rng.randint(0, 4)), "scripts": scripts})
         out.append({"id": "rnd-%d" % i, "cfg": cfg, "steps": steps})
     # the built-in budget of 10 retries is what ends the retrying: expressions without (or with a large) attempt bound
@@ -40,7 +40,7 @@ def seeded(ctx, n, big):
         for _ in range(4):
             scripts = [{"status": 503, "writes": [2], "read": rng.choice(["half", "all", "all", "none"]), "mut": rng.choice(["none", "hdr", "url", "hdrslice", "urlfields"])}
                        for _k in range(12)]
-            steps.append({"method": "POST", "framing": rng.choice(["declared", "chunked"]), "size": rng.choice([1, mem, mem + 7, 1024]),
+            steps.append({"method": "POST", "framing": rng.choice(["declared", "chunked", "unknown"]), "size": rng.choice([1, mem, mem + 7, 1024]),
                           "hdrs": ["X-A", "X-B2"], "scripts": scripts})
         out.append({"id": "budget-%d" % i, "cfg": cfg, "steps": steps})
     return out
